@@ -468,16 +468,156 @@ impl CompositeCone<F> {
             forall|i: int| 0 <= i < e@.len() && i < old(delta)@.len() ==> #[trigger] rect_ok(e@, final(delta)@, i),
     { unimplemented!() }
 }
-// norm kernels of MatrixMath (fold / closure based): ASSUMED to write only the output vector
+// ------------------------------------------------------------------ column / row norms and sums (matrix_math.rs), float symbols
+// running max of |value| over the stored entries lo..hi (one column), starting from `init`
+pub open spec fn colmax(nz: Seq<F>, lo: int, hi: int, init: F) -> F decreases hi - lo { if hi <= lo { init } else { f_max(colmax(nz, lo, hi - 1, init), f_abs(nz[hi - 1])) } }
+// running max of |value| over the first k stored entries that lie in row r
+pub open spec fn rowmax(rv: Seq<usize>, nz: Seq<F>, r: int, k: int, init: F) -> F decreases k {
+    if k <= 0 { init } else if rv[k - 1] == r { f_max(rowmax(rv, nz, r, k - 1, init), f_abs(nz[k - 1])) } else { rowmax(rv, nz, r, k - 1, init) } }
+pub open spec fn rowsum(rv: Seq<usize>, nz: Seq<F>, r: int, k: int) -> F decreases k {
+    if k <= 0 { f_zero() } else if rv[k - 1] == r { f_add(rowsum(rv, nz, r, k - 1), nz[k - 1]) } else { rowsum(rv, nz, r, k - 1) } }
+// symmetric column norms of an upper triangle: entry (r, i) feeds norms[i] and norms[r] (twice the same cell on the diagonal)
+pub open spec fn symstep(x: F, t: F, i: int, rj: int, c: int) -> F { let x1 = if i == c { f_max(x, t) } else { x }; if rj == c { f_max(x1, t) } else { x1 } }
+pub open spec fn symcol(A: CscMatrix<F>, c: int, i: int, hi: int, x: F) -> F decreases hi - A.colptr@[i] {
+    if hi <= A.colptr@[i] { x } else { symstep(symcol(A, c, i, hi - 1, x), f_abs(A.nzval@[hi - 1]), i, A.rowval@[hi - 1] as int, c) } }
+pub open spec fn symall(A: CscMatrix<F>, c: int, i: int, x: F) -> F decreases i { if i <= 0 { x } else { symcol(A, c, i - 1, A.colptr@[i] as int, symall(A, c, i - 1, x)) } }
+
 impl CscMatrix<F> {
-    #[verifier::external_body] pub fn col_norms(&self, norms: &mut [F]) ensures final(norms)@.len() == old(norms)@.len() { unimplemented!() }
-    #[verifier::external_body] pub fn col_norms_sym(&self, norms: &mut [F]) ensures final(norms)@.len() == old(norms)@.len() { unimplemented!() }
-    #[verifier::external_body] pub fn col_norms_no_reset(&self, norms: &mut [F]) ensures final(norms)@.len() == old(norms)@.len() { unimplemented!() }
-    #[verifier::external_body] pub fn row_norms(&self, norms: &mut [F]) ensures final(norms)@.len() == old(norms)@.len() { unimplemented!() }
+//@fn file=src/algebra/csc/matrix_math.rs in="MatrixMath<T> for CscMatrix<T>" name=col_norms_no_reset rules=R1,R6,R3,R24,R5,zipidx:1=m
+//@contract
+    requires self.colptr_ok(), old(norms)@.len() == self.n,
+    ensures
+        final(norms)@.len() == old(norms)@.len(),
+        // C16 / C10: norms[c] <- max(norms[c], max |entry| of column c)
+        forall|c: int| 0 <= c < self.n ==> #[trigger] final(norms)@[c] == colmax(self.nzval@, self.colptr@[c] as int, self.colptr@[c + 1] as int, old(norms)@[c]),
+//@pre
+        proof { assert(self.colptr@.len() == self.colptr.len()); assert(self.nzval@.len() == self.nzval.len()); }
+        let ghost n0 = norms@;
+//@iter 1
+it0
+//@loop 1
+        invariant
+            it0.seq().len() == r14_n1, range_from(it0.seq(), 0), r14_n1 == self.n, i_ctr == it0.index@, norms@.len() == n0.len(), n0.len() == self.n, self.colptr_ok(),
+            forall|c: int| 0 <= c < it0.index@ ==> #[trigger] norms@[c] == colmax(self.nzval@, self.colptr@[c] as int, self.colptr@[c + 1] as int, n0[c]),
+            forall|c: int| it0.index@ <= c < self.n ==> #[trigger] norms@[c] == n0[c],
+//@body_start 1
+            let ghost gc = i_ctr as int;
+            proof { assert(self.colptr@[gc] <= self.colptr@[gc + 1] <= self.colptr@[self.n as int]); }
+//@iter 2
+it1
+//@loop 2
+                invariant
+                    0 <= gc < self.n, self.colptr_ok(), self.colptr@[gc] <= self.colptr@[gc + 1] <= self.nzval@.len(),
+                    it1.seq().len() == self.colptr@[gc + 1] - self.colptr@[gc],
+                    forall|q: int| 0 <= q < it1.seq().len() ==> *(#[trigger] it1.seq()[q]) == self.nzval@[self.colptr@[gc] + q],
+                    m == colmax(self.nzval@, self.colptr@[gc] as int, self.colptr@[gc] + it1.index@, n0[gc]),
+//@end
+
+//@fn file=src/algebra/csc/matrix_math.rs in="MatrixMath<T> for CscMatrix<T>" name=col_norms rules=R1
+//@contract
+    requires self.colptr_ok(), old(norms)@.len() == self.n,
+    ensures
+        final(norms)@.len() == old(norms)@.len(),
+        forall|c: int| 0 <= c < self.n ==> #[trigger] final(norms)@[c] == colmax(self.nzval@, self.colptr@[c] as int, self.colptr@[c + 1] as int, f_zero()),
+//@end
+
+//@fn file=src/algebra/csc/matrix_math.rs in="MatrixMath<T> for CscMatrix<T>" name=row_norms_no_reset rules=R1,R6,zipidx:1=ii
+//@contract
+    requires self.colptr_ok(), rows_below(*self, old(norms)@.len() as int),
+    ensures
+        final(norms)@.len() == old(norms)@.len(),
+        // norms[r] <- max(norms[r], max |entry| of row r), entries taken in storage order
+        forall|r: int| 0 <= r < old(norms)@.len() ==> #[trigger] final(norms)@[r] == rowmax(self.rowval@, self.nzval@, r, self.rowval@.len() as int, old(norms)@[r]),
+//@pre
+        proof { assert(self.colptr@.len() == self.colptr.len()); }
+        let ghost n0 = norms@;
+//@iter 1
+it0
+//@loop 1
+        invariant
+            it0.seq().len() == r14_n1, range_from(it0.seq(), 0), r14_n1 == self.rowval@.len(), self.rowval@.len() == self.nzval@.len(), norms@.len() == n0.len(),
+            rows_below(*self, n0.len() as int),
+            forall|r: int| 0 <= r < n0.len() ==> #[trigger] norms@[r] == rowmax(self.rowval@, self.nzval@, r, it0.index@ as int, n0[r]),
+//@end
+
+//@fn file=src/algebra/csc/matrix_math.rs in="MatrixMath<T> for CscMatrix<T>" name=row_norms rules=R1
+//@contract
+    requires self.colptr_ok(), rows_below(*self, old(norms)@.len() as int),
+    ensures
+        final(norms)@.len() == old(norms)@.len(),
+        forall|r: int| 0 <= r < old(norms)@.len() ==> #[trigger] final(norms)@[r] == rowmax(self.rowval@, self.nzval@, r, self.rowval@.len() as int, f_zero()),
+//@end
+
+//@fn file=src/algebra/csc/matrix_math.rs in="MatrixMath<T> for CscMatrix<T>" name=row_sums rules=R1,R6,zipidx:1=ii
+//@contract
+    requires self.rowval@.len() == self.nzval@.len(), old(sums)@.len() == self.m, rows_below(*self, self.m as int),
+    ensures
+        final(sums)@.len() == old(sums)@.len(),
+        forall|r: int| 0 <= r < self.m ==> #[trigger] final(sums)@[r] == rowsum(self.rowval@, self.nzval@, r, self.rowval@.len() as int),
+//@iter 1
+it0
+//@loop 1
+        invariant
+            it0.seq().len() == r14_n1, range_from(it0.seq(), 0), r14_n1 == self.rowval@.len(), self.rowval@.len() == self.nzval@.len(), sums@.len() == self.m,
+            rows_below(*self, self.m as int),
+            forall|r: int| 0 <= r < self.m ==> #[trigger] sums@[r] == rowsum(self.rowval@, self.nzval@, r, it0.index@ as int),
+//@end
+
+//@fn file=src/algebra/csc/matrix_math.rs in="MatrixMath<T> for CscMatrix<T>" name=col_norms_sym_no_reset rules=R1,R6
+//@contract
+    requires self.colptr_ok(), old(norms)@.len() == self.n, rows_below(*self, self.n as int),
+    ensures
+        final(norms)@.len() == old(norms)@.len(),
+        // symmetric column norms from the stored upper triangle
+        forall|c: int| 0 <= c < self.n ==> #[trigger] final(norms)@[c] == symall(*self, c, self.n as int, old(norms)@[c]),
+//@pre
+        proof { assert(self.colptr@.len() == self.colptr.len()); }
+        let ghost n0 = norms@;
+//@iter 1
+it0
+//@loop 1
+        invariant
+            it0.seq().len() == self.n, range_from(it0.seq(), 0), norms@.len() == self.n, n0.len() == self.n, self.colptr_ok(), rows_below(*self, self.n as int),
+            forall|c: int| 0 <= c < self.n ==> #[trigger] norms@[c] == symall(*self, c, it0.index@ as int, n0[c]),
+//@body_start 1
+            let ghost gi = $var1 as int;
+            proof { assert(self.colptr@[gi] <= self.colptr@[gi + 1] <= self.colptr@[self.n as int]); }
+//@iter 2
+it1
+//@loop 2
+                invariant
+                    0 <= gi < self.n, $var1 == gi, norms@.len() == self.n, n0.len() == self.n, self.colptr_ok(), rows_below(*self, self.n as int),
+                    self.colptr@[gi] <= self.colptr@[gi + 1] <= self.nzval@.len(),
+                    it1.seq().len() == self.colptr@[gi + 1] - self.colptr@[gi], range_from(it1.seq(), self.colptr@[gi] as int),
+                    forall|c: int| 0 <= c < self.n ==> #[trigger] norms@[c] == symcol(*self, c, gi, self.colptr@[gi] + it1.index@, symall(*self, c, gi, n0[c])),
+//@body_start 2
+                let ghost gj = $var2 as int;
+                let ghost nm1 = norms@;
+//@body_end 2
+                proof {
+                    assert forall|c: int| 0 <= c < self.n implies #[trigger] norms@[c] == symcol(*self, c, gi, gj + 1, symall(*self, c, gi, n0[c])) by {
+                        assert(nm1[c] == symcol(*self, c, gi, gj, symall(*self, c, gi, n0[c])));
+                    }
+                }
+//@end
+
+//@fn file=src/algebra/csc/matrix_math.rs in="MatrixMath<T> for CscMatrix<T>" name=col_norms_sym rules=R1
+//@contract
+    requires self.colptr_ok(), old(norms)@.len() == self.n, rows_below(*self, self.n as int),
+    ensures
+        final(norms)@.len() == old(norms)@.len(),
+        forall|c: int| 0 <= c < self.n ==> #[trigger] final(norms)@[c] == symall(*self, c, self.n as int, f_zero()),
+//@end
 }
 //@fn file=src/solver/implementations/default/problemdata.rs name=kkt_col_norms rules=R1
 //@contract
+    requires
+        P.colptr_ok(), A.colptr_ok(), P.m == P.n, A.n == P.n, old(norm_LHS)@.len() == P.n, old(norm_RHS)@.len() == A.m,
+        rows_below(*P, P.n as int), rows_below(*A, A.m as int),
     ensures final(norm_LHS)@.len() == old(norm_LHS)@.len(), final(norm_RHS)@.len() == old(norm_RHS)@.len(),
+        // C10: column norms of the KKT matrix [P A'; A 0]: left block = symmetric column norms of P, then the columns of A on top; right block = row norms of A
+        forall|c: int| 0 <= c < P.n ==> #[trigger] final(norm_LHS)@[c] == colmax(A.nzval@, A.colptr@[c] as int, A.colptr@[c + 1] as int, symall(*P, c, P.n as int, f_zero())),
+        forall|r: int| 0 <= r < A.m ==> #[trigger] final(norm_RHS)@[r] == rowmax(A.rowval@, A.nzval@, r, A.rowval@.len() as int, f_zero()),
 //@end
 
 // every entry of s lies in [lo, hi]
@@ -500,7 +640,7 @@ impl DefaultProblemData<F> {
     pub open spec fn shape_ok(&self) -> bool {
         let eq = self.equilibration;
         &&& self.P.colptr_ok() && self.A.colptr_ok()
-        &&& self.P.n == eq.d@.len() && self.A.n == eq.d@.len()
+        &&& self.P.n == eq.d@.len() && self.A.n == eq.d@.len() && self.P.m == self.P.n && self.A.m == eq.e@.len()
         &&& rows_below(self.P, eq.d@.len() as int) && rows_below(self.A, eq.e@.len() as int)
         &&& self.q@.len() == eq.d@.len() && self.b@.len() == eq.e@.len()
         &&& eq.dinv@.len() == eq.d@.len() && eq.einv@.len() == eq.e@.len()
@@ -535,7 +675,7 @@ impl DefaultProblemData<F> {
 //@loop 1
             invariant
                 P.same_pattern(&P0), A.same_pattern(&A0), P0.colptr_ok(), A0.colptr_ok(),
-                P0.n == nn, A0.n == nn, rows_below(P0, nn as int), rows_below(A0, mm as int),
+                P0.n == nn, A0.n == nn, P0.m == P0.n, A0.m == mm, rows_below(P0, nn as int), rows_below(A0, mm as int),
                 q@.len() == nn, b@.len() == mm, d@.len() == nn, dwork@.len() == nn, e@.len() == mm, ework@.len() == mm,
                 lo == scale_min.v(), hi == scale_max.v(), 0real < lo <= 1real, 1real <= hi,
                 within(d@, lo, hi), within(e@, lo, hi), lo <= equil.c.v() <= hi,
